@@ -79,19 +79,40 @@ def run_witness(fid, hashseed):
 def run(ctx):
     sites, nfiles = sitegen.regenerate()
     ctx.prove(FILES, allowed_axioms=(), trusted_base=TRUSTED)
-    # micro-witnesses of the recorded findings
+    # micro-witnesses of the recorded findings (open: still failing -> KNOWN-FINDING; fixed: a
+    # regression, i.e. the output depends on PYTHONHASHSEED again -> VIOLATION)
+    status = {f["id"]: f for f in ctx.findings}
+    for fid, snippet in WITNESSES.items():
+        outs = {hs: run_witness(fid, hs) for hs in ("0", "1", "2")}
+        differs = len(set(outs.values())) > 1 and not any(o.startswith("ERROR") for o in outs.values())
+        f = status.get(fid)
+        if differs and f is not None and f["status"] == "open":
+            ctx.known(fid, f["what"])
+        elif differs:
+            ctx.violation("oracle", dict(family="witness", case=dict(witness=fid, snippet=snippet),
+                                         failure=dict(clause="same model and seeds give the same run regardless of PYTHONHASHSEED", outputs=outs)))
+        elif f is not None and f["status"] == "open":
+            ctx.notes.append(f"finding {fid}: witness no longer differs across PYTHONHASHSEED (stale entry?): {outs}")
+    # findings identified by a source site: still present in the regenerated list -> KNOWN-FINDING
     for f in ctx.findings:
-        if f["status"] != "open" or f["id"] not in WITNESSES:
-            continue
-        outs = {hs: run_witness(f["id"], hs) for hs in ("0", "1", "2")}
-        if len(set(outs.values())) > 1 and not any(o.startswith("ERROR") for o in outs.values()):
-            ctx.known(f["id"], f["what"])
-        else:
-            ctx.notes.append(f"finding {f['id']}: witness no longer differs across PYTHONHASHSEED (stale entry?): {outs}")
+        if f["status"] == "open" and f.get("site"):
+            if any(list(s[:3]) == f["site"] for s in sites["env_sites"]):
+                ctx.known(f["id"], f["what"])
+            else:
+                ctx.notes.append(f"finding {f['id']}: its site is no longer in the source tree (stale entry?)")
     from scenarios import runner
     names = sorted(runner.builders())
-    variants = range(2) if ctx.quick else range(5)
-    cases = [(n, ctx.seed, v) for n in names for v in variants]
+    if ctx.quick:
+        # one variant per scenario, rotating with the scenario index and the seed; the scenarios listed as
+        # cases of a known finding are always run with that variant too
+        cases = [(n, ctx.seed, (i + ctx.seed) % 3) for i, n in enumerate(names)]
+        for f in ctx.findings:
+            for c in f.get("cases", []):
+                nm, _, v = c.partition(":")
+                if nm in names and (nm, ctx.seed, int(v or 0)) not in cases:
+                    cases.append((nm, ctx.seed, int(v or 0)))
+    else:
+        cases = [(n, ctx.seed, v) for n in names for v in range(5)]
     envs = [ENVS[0], ENVS[2]] if ctx.quick else ENVS
     jobs = [(n, s, v, hs, prior) for (n, s, v) in cases for (hs, prior) in envs]
     with ThreadPoolExecutor(max_workers=14) as ex:
@@ -131,6 +152,10 @@ def run(ctx):
 
 def replay(data):
     c = data["detail"]["case"]
+    if "witness" in c:
+        outs = {hs: run_witness(c["witness"], hs) for hs in ("0", "1", "2")}
+        print(outs)
+        return 1 if len(set(outs.values())) > 1 else 0
     rs = [run_case((c["name"], c["seed"], c["variant"], hs, prior)) for hs, prior in ENVS]
     for r in rs:
         print(r["env"], r["verdict"], r["digest"], r["stats_digest"])
